@@ -585,56 +585,196 @@ def check_chunks(prog, rep):
         elif comparable(val, ref):
             rep.violate("R6-chunks", construct, "usefulness normalises to %s; its definition is parental mean + intensity * sqrt(variance)" % val.show()[:160], where(f, store),
                         "epgc.dot(bv[cross]) + i*sqrt(var[cross])", val.show()[:160])
+        elif "epgc" not in repr(val.key()):
+            rep.violate("R6-chunks", construct, "the expected progeny value %s does not use the cross design's parental contributions (epgc): for unequal contributions "
+                        "(three-way crosses: 1/2, 1/4, 1/4) it is not the progeny mean" % val.show()[:100], where(f, store), "epgc.dot(bv[cross]) + i*sqrt(var[cross])", val.show()[:120])
         else:
             rep.unrec("R6-chunks", construct, "usefulness written with other operators")
     except (VNUnknown, IndexError, ValueError) as e:
         rep.unrec("R6-chunks", construct, "not modelled: %s" % e)
 
 
-def check_loopdata(prog, rep):
-    """R7: in every `for i in range(n)` loop of the problem factories that stores into out[i, ...], the stored value depends on i"""
-    n = 0
+DATA_MODULES = ("pybrops.model.embvmat.", "pybrops.model.wgebvmat.")
+
+
+def _domain_funcs(prog):
     for m in prog.modules.values():
-        if not m.name.startswith(PROB):
+        if not (m.name.startswith(PROB) or m.name.startswith(DATA_MODULES)):
             continue
         for c in m.classes.values():
             for name, f in c.methods.items():
-                if not (name.startswith("from_") or name.startswith("_calc")):
+                if name.startswith("from_") or name.startswith("_calc"):
+                    yield f
+
+
+def _target_names(t):
+    return [x.id for x in ast.walk(t) if isinstance(x, ast.Name)]
+
+
+def check_loopdata(prog, rep):
+    """R7: in every counting loop of the problem / data factories that stores into out[i, ...]: (a) the index variable is not rebound inside the
+    iteration before the store, (b) the stored value depends on the iteration"""
+    n = 0
+    for f in _domain_funcs(prog):
+        for lp in [x for x in walk_no_nested(f.node) if isinstance(x, ast.For)]:
+            counted = isinstance(lp.iter, ast.Call) and dump(lp.iter.func) in ("range", "enumerate", "zip")
+            if not counted:
+                continue
+            tn = _target_names(lp.target)
+            if isinstance(lp.iter, ast.Call) and dump(lp.iter.func) == "enumerate" and isinstance(lp.target, ast.Tuple):
+                idx = _target_names(lp.target.elts[0])
+            elif dump(lp.iter.func) == "range":
+                idx = tn
+            else:
+                idx = []
+            stores = []
+            for s in ast.walk(lp):
+                if isinstance(s, (ast.Assign, ast.AugAssign)):
+                    tg = s.targets[0] if isinstance(s, ast.Assign) else s.target
+                    if isinstance(tg, ast.Subscript):
+                        used = {x.id for x in ast.walk(tg.slice) if isinstance(x, ast.Name)}
+                        if used & set(idx):
+                            stores.append((s, tg, sorted(used & set(idx))[0]))
+            if not stores:
+                continue
+            # (a) rebinding of the index inside the iteration
+            rebinds = []
+            for s in ast.walk(lp):
+                if s is lp:
                     continue
-                for lp in [x for x in walk_no_nested(f.node) if isinstance(x, ast.For)]:
-                    if not (isinstance(lp.target, ast.Name) and isinstance(lp.iter, ast.Call) and dump(lp.iter.func) == "range"):
+                if isinstance(s, ast.For) and set(_target_names(s.target)) & set(idx):
+                    rebinds.append(s)
+                elif isinstance(s, ast.Assign) and any(isinstance(t, ast.Name) and t.id in idx for t in s.targets):
+                    rebinds.append(s)
+            # names defined anywhere in the iteration and what they depend on
+            dep = {}
+            STOCH = "<stochastic>"
+
+            def names_of(e):
+                out = {x.id for x in ast.walk(e) if isinstance(x, ast.Name)}
+                for x in ast.walk(e):
+                    if isinstance(x, ast.Attribute) and x.attr in ("rng", "_rng"):
+                        out.add(STOCH)
+                    if isinstance(x, ast.Call) and isinstance(x.func, ast.Attribute) and x.func.attr in ("mate", "phenotype"):
+                        out.add(STOCH)
+                if out & {"global_prng", "rng"}:
+                    out.add(STOCH)
+                return out
+            for s in ast.walk(lp):
+                if isinstance(s, ast.Assign):
+                    for t in s.targets:
+                        for nm in ([t.id] if isinstance(t, ast.Name) else ([t.value.id] if isinstance(t, ast.Subscript) and isinstance(t.value, ast.Name) else [])):
+                            dep.setdefault(nm, set()).update(names_of(s.value))
+                            if isinstance(t, ast.Subscript):
+                                dep[nm].update(x.id for x in ast.walk(t.slice) if isinstance(x, ast.Name))
+                elif isinstance(s, ast.AugAssign) and isinstance(s.target, ast.Name):
+                    dep.setdefault(s.target.id, set()).update(names_of(s.value))
+                elif isinstance(s, ast.For) and s is not lp:
+                    for nm in _target_names(s.target):
+                        dep.setdefault(nm, set()).update(x.id for x in ast.walk(s.iter) if isinstance(x, ast.Name))
+            for s, tg, i in stores:
+                if s not in lp.body and not any(s in list(ast.walk(b)) for b in lp.body if isinstance(b, (ast.If, ast.Try, ast.With))):
+                    # a store nested in an inner loop: belongs to that loop's own instance of the rule unless it indexes by the outer variable
+                    pass
+                n += 1
+                rep.saw(f)
+                construct = "%s#%s" % (f.qualname, dump(tg)[:30])
+                rb = [r for r in rebinds if getattr(r, "lineno", 0) < getattr(s, "lineno", 0) and i in (_target_names(r.target) if isinstance(r, ast.For)
+                                                                                                      else [t.id for t in r.targets if isinstance(t, ast.Name)])]
+                if rb:
+                    rep.violate("R7-loopdata", f.qualname, "the index %s of the outer loop `for %s in %s` is rebound by `%s` before the store into %s: every iteration writes the "
+                                "row given by the inner loop's last value, the other rows are never written" % (i, dump(lp.target), dump(lp.iter)[:30],
+                                                                                                              dump(rb[0]).splitlines()[0][:40], dump(tg)[:30]),
+                                where(f, rb[0]), "a different name for the inner loop variable", dump(rb[0]).splitlines()[0][:40])
+                    continue
+                seen, work = set(), list(names_of(s.value))
+                uses = False
+                while work:
+                    nm = work.pop()
+                    if nm in tn:
+                        uses = True
+                        break
+                    if nm == STOCH:
+                        uses = "replicate"
+                        break
+                    if nm in seen:
                         continue
-                    i = lp.target.id
-                    stores = [s for s in lp.body if isinstance(s, ast.Assign) and isinstance(s.targets[0], ast.Subscript)
-                              and i in {x.id for x in ast.walk(s.targets[0].slice) if isinstance(x, ast.Name)}]
-                    if not stores:
-                        continue
-                    # names defined in the loop body and what they depend on
-                    dep = {}
-                    for s in lp.body:
-                        if isinstance(s, ast.Assign) and isinstance(s.targets[0], ast.Name):
-                            dep[s.targets[0].id] = {x.id for x in ast.walk(s.value) if isinstance(x, ast.Name)}
-                    for s in stores:
-                        n += 1
-                        rep.saw(f)
-                        seen, work = set(), [x.id for x in ast.walk(s.value) if isinstance(x, ast.Name)]
-                        uses_i = False
-                        while work:
-                            nm = work.pop()
-                            if nm == i:
-                                uses_i = True
-                                break
-                            if nm in seen:
-                                continue
-                            seen.add(nm)
-                            work.extend(dep.get(nm, ()))
-                        if uses_i:
-                            rep.ok("R7-loopdata", "%s#%s" % (f.qualname, dump(s.targets[0])[:30]), "value stored into slice %s depends on %s" % (i, i))
-                        else:
-                            rep.violate("R7-loopdata", f.qualname, "every iteration of `for %s in %s` stores the same value into %s: the per-%s data (%s) are never indexed by %s"
-                                        % (i, dump(lp.iter), dump(s.targets[0])[:30], i, ", ".join(sorted(x for x in seen if x in f.params()))[:60], i), where(f, s),
-                                        "value depends on %s" % i, dump(s.value)[:50])
+                    seen.add(nm)
+                    work.extend(dep.get(nm, ()))
+                if uses == "replicate":
+                    rep.ok("R7-loopdata", construct, "replicate loop: the value stored into slice %s is a fresh random draw per iteration" % i)
+                elif uses:
+                    rep.ok("R7-loopdata", construct, "value stored into slice %s depends on the iteration (%s)" % (i, ", ".join(tn)))
+                else:
+                    rep.violate("R7-loopdata", f.qualname, "every iteration of `for %s in %s` stores the same value into %s: the per-%s data (%s) are never indexed by the iteration"
+                                % (dump(lp.target), dump(lp.iter), dump(tg)[:30], i, ", ".join(sorted(x for x in seen if x in f.params()))[:60]), where(f, s),
+                                "value depends on %s" % i, dump(s.value)[:50])
     rep.extra["indexed_store_loops"] = n
+
+
+def check_scratch(prog, rep):
+    """R10: a scratch buffer that is reduced WHOLE over its first axis holds exactly the rows this iteration wrote: it is allocated with the extent of the
+    fill loop, and inside the iteration whenever that extent varies with it"""
+    n = 0
+    for f in _domain_funcs(prog):
+        asg = {}
+        for s in ast.walk(f.node):
+            if isinstance(s, ast.Assign) and len(s.targets) == 1 and isinstance(s.targets[0], ast.Name):
+                asg.setdefault(s.targets[0].id, []).append(s)
+        parents = {}
+        for p_ in ast.walk(f.node):
+            for ch in ast.iter_child_nodes(p_):
+                parents[id(ch)] = p_
+
+        def loops_of(node):
+            out = []
+            while id(node) in parents:
+                node = parents[id(node)]
+                if isinstance(node, ast.For):
+                    out.append(node)
+            return out
+        for red in ast.walk(f.node):
+            if not (isinstance(red, ast.Call) and isinstance(red.func, ast.Attribute) and red.func.attr in ("mean", "sum", "max", "min", "std", "var")
+                    and isinstance(red.func.value, ast.Name) and red.func.value.id in asg):
+                continue
+            kws, _ = kwargs_of(red)
+            ax = kws.get("axis") or (red.args[0] if red.args else None)
+            if ax is None or dump(ax) != "0":
+                continue
+            B = red.func.value.id
+            allocs = [s for s in asg[B] if isinstance(s.value, ast.Call) and prog.dotted(f.module, s.value.func) in ("numpy.empty", "numpy.zeros", "numpy.full")]
+            if len(allocs) != 1 or len(asg[B]) != 1:
+                continue
+            al = allocs[0]
+            shp = al.value.args[0] if al.value.args else None
+            ext = shp.elts[0] if isinstance(shp, ast.Tuple) and shp.elts else shp
+            fills = [s for s in ast.walk(f.node) if isinstance(s, ast.Assign) and isinstance(s.targets[0], ast.Subscript) and dump(s.targets[0].value) == B]
+            if len(fills) != 1:
+                continue
+            fill = fills[0]
+            fl = loops_of(fill)
+            if not fl or not (isinstance(fl[0].iter, ast.Call) and dump(fl[0].iter.func) == "range" and len(fl[0].iter.args) == 1 and isinstance(fl[0].target, ast.Name)):
+                continue
+            j = fl[0].target.id
+            first = fill.targets[0].slice.elts[0] if isinstance(fill.targets[0].slice, ast.Tuple) else fill.targets[0].slice
+            if dump(first) != j:
+                continue
+            n += 1
+            rep.saw(f)
+            construct = "%s#%s" % (f.qualname, B)
+            trip = "".join(dump(fl[0].iter.args[0]).split())
+            extent = "".join(dump(ext).split()) if ext is not None else "?"
+            outer = [l for l in loops_of(red)]
+            varying = [l for l in outer if set(_target_names(l.target)) & {x.id for x in ast.walk(fl[0].iter.args[0]) if isinstance(x, ast.Name)}]
+            if extent != trip:
+                rep.violate("R10-scratch", construct, "%s.%s(axis=0) reduces all %s rows of the buffer, but the iteration fills rows range(%s): rows left over from "
+                            "earlier iterations (or never written) enter the reduction" % (B, red.func.attr, extent, trip), where(f, red), "buffer of %s rows" % trip, extent)
+            elif varying and varying[0] not in loops_of(al):
+                rep.violate("R10-scratch", construct, "the buffer is allocated once outside `for %s`, although its extent %s changes with the iteration" % (dump(varying[0].target), trip),
+                            where(f, al))
+            else:
+                rep.ok("R10-scratch", construct, "buffer of %s rows allocated in the iteration that fills rows range(%s) and reduces them" % (extent, trip))
+    rep.floor("R10-scratch", 1)
 
 
 def check_derived(prog, rep):
@@ -694,4 +834,5 @@ def run(prog, rep, tier):
     check_chunks(prog, rep)
     check_loopdata(prog, rep)
     check_derived(prog, rep)
+    check_scratch(prog, rep)
     check_subset_frequencies(prog, rep, tier)
